@@ -415,6 +415,36 @@ def r_path(A, ctx, scope, rule="R-PATH"):
                          "differently (a grid that is not sorted the way the sweep goes) result number t does "
                          "not belong to the alpha returned at position t") if bad else "",
                    loc=loc(f, bad[0][1]) if bad else None)
+        # (0c) results reported in the caller's order: when the swept grid is a permutation
+        # `G = G_in[perm]` of the caller's grid and the caller's grid is what is returned, the
+        # results must be un-permuted with the inverse permutation, not permuted once more by `perm`
+        if grid_name and rets:
+            perm_def = None
+            for st in ast.walk(f.node):
+                if isinstance(st, ast.Assign) and len(st.targets) == 1 and isinstance(st.targets[0], ast.Name) \
+                        and st.targets[0].id == grid_name and isinstance(st.value, ast.Subscript) \
+                        and isinstance(st.value.value, ast.Name) and isinstance(st.value.slice, ast.Name):
+                    perm_def = (st.value.value.id, st.value.slice.id)
+            if perm_def is not None:
+                g_in, perm = perm_def
+                for r in rets:
+                    elts = list(r.value.elts) if isinstance(r.value, ast.Tuple) else [r.value]
+                    # resolve names through a tuple assignment that precedes the return
+                    for st in ast.walk(f.node):
+                        if isinstance(st, ast.Assign) and len(st.targets) == 1 and isinstance(st.targets[0], ast.Tuple) \
+                                and isinstance(st.value, ast.Tuple) and st.lineno > lp.end_lineno and st.lineno < r.lineno:
+                            m_ = {t.id: v for t, v in zip(st.targets[0].elts, st.value.elts) if isinstance(t, ast.Name)}
+                            elts = [m_.get(e.id, e) if isinstance(e, ast.Name) else e for e in elts]
+                    if len(elts) >= 2 and isinstance(elts[0], ast.Name) and elts[0].id == g_in:
+                        again = [e for e in elts[1:] if isinstance(e, ast.Subscript) and isinstance(e.slice, ast.Name)
+                                 and e.slice.id == perm]
+                        n += 1
+                        ctx.ob(rule, f"{f.fq}::returned-order", not again,
+                               what=(f"path() sweeps `{grid_name} = {g_in}[{perm}]` and returns `{g_in}` together with "
+                                     f"`{norm_src(again[0])}`: results in sweep order are permuted by `{perm}` once more "
+                                     f"instead of by its inverse (np.argsort({perm})), so for a grid whose sorting "
+                                     "permutation is not its own inverse result i does not belong to alpha i") if again else "",
+                               loc=loc(f, r))
         # (1) alpha set before solve
         n += 1
         ok = False
@@ -532,6 +562,32 @@ def r_path(A, ctx, scope, rule="R-PATH"):
                                 "X @ w[:n_features] + fit_intercept * w[-1] (intercept row "
                                 "multiplied into X, or intercept contribution missing)",
                            loc=loc(f, a))
+        # (4) a model fit carried from one grid point to the next (no definition of it dominates
+        # solve() inside the iteration) relies on solve() updating that very buffer in place
+        if isinstance(xarg, ast.Name) and isinstance(call.func.value, ast.Name) and call.func.value.id == "self" \
+                and f.cls is not None and f.cls.name in A.facts:
+            lp_id = cfg.node_of(lp)
+            in_loop_defs = [d for d in range(len(cfg.nodes)) if cfg.nodes[d].kind == "stmt"
+                            and isinstance(cfg.nodes[d].ast, ast.Assign)
+                            and any(isinstance(t, ast.Name) and t.id == xarg.id for t in cfg.nodes[d].ast.targets)
+                            and lp_id in cfg.nodes[d].loops]
+            carried = not any(cfg.dominated_by(cnode, d) for d in in_loop_defs)
+            if carried:
+                sf = A.facts[f.cls.name]
+                a = sf.xw_init_assign
+                n += 1
+                ok = False
+                if a is not None and isinstance(a.value, ast.IfExp):
+                    v = a.value
+                    given = v.orelse if "is None" in ast.unparse(v.test) and "not" not in ast.unparse(v.test) else v.body
+                    ok = isinstance(given, ast.Name) and given.id == sf.pXW0 and sf.pXW0 in flow.mut.get(sf.f, set())
+                ctx.ob(rule, f"{f.fq}::carried-model-fit", ok,
+                       what=f"{f.qualname} hands the same `{xarg.id}` to solve() at every grid point without recomputing "
+                            f"it, i.e. relies on {f.cls.name}._solve updating its `{sf.pXW0}` argument in place - but "
+                            f"`{norm_src(a)[:70] if a is not None else '?'}` works on another array (a copy / a conversion): "
+                            "from the second grid point on the solver starts from the previous coefficients with a "
+                            "stale model fit and certifies a point that is not optimal",
+                       loc=loc(sf.f, a) if a is not None else None)
     ctx.floor(rule, n, scope.get("floor", 8))
 
 
